@@ -228,6 +228,27 @@ func runC29(rec *kit.Recorder, c c29Case) error {
 				return kit.Fail("ranking-differs", "%s: score debugging changes scores", what)
 			}
 		}
+		if e.dir != nil {
+			// a display limit goes through the incremental aggregation of the
+			// sharded searcher; what comes out must be ordered the same way
+			for _, limit := range []int{4, 6} {
+				var lf []zoekt.FileMatch
+				err := kit.Guard(func() error {
+					res, err := e.dir.Search(context.Background(), q, &zoekt.SearchOptions{ChunkMatches: c.Chunk, NumContextLines: c.Context, UseBM25Scoring: c.BM25, MaxDocDisplayCount: limit})
+					if err != nil {
+						return err
+					}
+					lf = res.Files
+					return nil
+				})
+				if err != nil {
+					return kit.Fail("unstable", "query %s fails with MaxDocDisplayCount=%d: %v", q, limit, err)
+				}
+				if _, err := checkFileOrder(lf, fmt.Sprintf("%s with MaxDocDisplayCount=%d", what, limit)); err != nil {
+					return err
+				}
+			}
+		}
 		if c.BM25 {
 			// BM25 sums per-term scores; a sum taken in map order differs in the
 			// last bits from run to run, so repeat until an order dependence had
@@ -271,7 +292,7 @@ func runC29(rec *kit.Recorder, c c29Case) error {
 
 func TestVerif_C29(t *testing.T) {
 	rec := kit.Open(t, "C29",
-		"C01 corpora (symbols, repository ranks, several file extensions) and query batches (finite boosts in [0.01,100]) with default and BM25 scoring, each query run twice plus once with score debugging (BM25: eight more times, scores compared bit for bit), through the directory searcher (file order) and the bare shard searcher; non-trivial = >= 3 files, >= 2 extensions and a file with >= 2 matches; distinct by hash",
+		"C01 corpora (symbols, repository ranks, several file extensions) and query batches (finite boosts in [0.01,100]) with default and BM25 scoring, each query run twice plus once with score debugging (BM25: eight more times, scores compared bit for bit), through the directory searcher (file order, also under display limits of 4 and 6 files) and the bare shard searcher; non-trivial = >= 3 files, >= 2 extensions and a file with >= 2 matches; distinct by hash",
 		"the documented promotion: one file with an extension not among the first two may sit in third place if it scores >= 0.9 x the file it displaced",
 		"order is compared up to ties: every file must have the same scores in both runs and each run must be ordered by score (files with equal scores may swap, which may also change which file the promotion picks)",
 	)
